@@ -176,7 +176,7 @@ func C15(r *drv.Run) {
 	if !quick(r) {
 		ngen = 4000
 	}
-	r.Rule = "commands with an empty body in every amount form (alone, first, in the middle, last in a source) among the bases; every filler also behind the last token and before the first; valid programs as token lists (hand corpus covering every production incl. process statements/expressions, amount clauses, named loops, ranges, caseless, regex literals; repository examples; generated programs) x EVERY gap between adjacent tokens x {newline, tab run, CRLF, line comment, block comment glued, block comment with blanks, multi-line block comment, two line comments, two glued block comments, block then line comment, three comments mixed with blanks, vertical tab, form feed, block comments whose text mentions `--(` or consists of dashes and parentheses, the empty block comment, a line comment mentioning block syntax, line and block comments holding bytes that are not valid UTF-8} and - where the neighbours are not both words - removal of the whitespace; every keyword individually and all together in UPPER and MiXeD case; `function` written for its alias `transform`; leading/trailing layout; the same text, and its CR LF form, read from a file through CompileFile; a 5 MiB gap (blank lines, one block comment, line comments) between the commands of two programs, through CompileFile and through Compile; eight White_Space code points beyond ASCII (U+0085, U+00A0, U+1680, U+2000, U+2003, U+2028, U+205F, U+3000) in one gap per program, judged as a group: all of them separate tokens or none does. Oracle (metamorphic): variant accepted iff the single-blank original is, reflect.DeepEqual + canonical-dump equality of the syntax trees (hook H6), identical Run results on 3 texts (a text on which the original alone needs more than 4 000 VM steps is dropped for its variants, which run under a budget of 30 000). Non-trivial = every distinct variant whose three verdicts agreed; distinct by variant source."
+	r.Rule = "truncated programs (every token prefix of the hand corpus, accepted or not) under every filler behind their last token and in front of their first; commands with an empty body in every amount form (alone, first, in the middle, last in a source) among the bases; every filler also behind the last token and before the first; valid programs as token lists (hand corpus covering every production incl. process statements/expressions, amount clauses, named loops, ranges, caseless, regex literals; repository examples; generated programs) x EVERY gap between adjacent tokens x {newline, tab run, CRLF, line comment, block comment glued, block comment with blanks, multi-line block comment, two line comments, two glued block comments, block then line comment, three comments mixed with blanks, vertical tab, form feed, block comments whose text mentions `--(` or consists of dashes and parentheses, the empty block comment, a line comment mentioning block syntax, line and block comments holding bytes that are not valid UTF-8} and - where the neighbours are not both words - removal of the whitespace; every keyword individually and all together in UPPER and MiXeD case; `function` written for its alias `transform`; leading/trailing layout; the same text, and its CR LF form, read from a file through CompileFile; a 5 MiB gap (blank lines, one block comment, line comments) between the commands of two programs, through CompileFile and through Compile; eight White_Space code points beyond ASCII (U+0085, U+00A0, U+1680, U+2000, U+2003, U+2028, U+205F, U+3000) in one gap per program, judged as a group: all of them separate tokens or none does. Oracle (metamorphic): variant accepted iff the single-blank original is, reflect.DeepEqual + canonical-dump equality of the syntax trees (hook H6), identical Run results on 3 texts (a text on which the original alone needs more than 4 000 VM steps is dropped for its variants, which run under a budget of 30 000). Non-trivial = every distinct variant whose three verdicts agreed; distinct by variant source."
 	r.Assumptions = []string{
 		"a block comment glued directly after '-' is not a layout change (it lexes as a different token sequence) and is not generated",
 		"the harness tokenizer's token boundaries are those of the documented lexing rules; it is only applied to programs known to be valid",
@@ -220,6 +220,21 @@ func C15(r *drv.Run) {
 		base, vs := c15Variants(b)
 		probes = append(probes, &probe{base: base, vs: vs})
 	}
+	// TRUNCATED programs - every token prefix of the hand corpus, accepted or not: what stands behind the last token or
+	// in front of the first is layout all the same (all layouts accepted, or all rejected)
+	nTrunc := 0
+	for _, b := range gen.Corpus {
+		ts := gen.Significant(gen.Tokenize(b))
+		if len(ts) > 60 {
+			continue
+		}
+		for k := 2; k < len(ts); k++ {
+			base, vs := c15EdgeVariants(gen.JoinWith(ts[:k], " "))
+			probes = append(probes, &probe{base: base, vs: vs})
+			nTrunc++
+		}
+	}
+	r.Extra["truncated_bases"] = nTrunc
 	r.Exec(len(probes), drv.ExecOpts{Batch: 40}, func(i int) *drv.Item {
 		pb := probes[i]
 		c := wire.Case{Op: "run", Src: []byte(pb.base), Texts: allTexts, StepBudget: 4000}
@@ -408,4 +423,21 @@ func C15(r *drv.Run) {
 		}
 	}
 	_ = fmt.Sprint
+}
+
+// c15EdgeVariants: only the layout behind the last token and in front of the first one.
+func c15EdgeVariants(src string) (base string, vs []c15Variant) {
+	ts := gen.Significant(gen.Tokenize(src))
+	base = gen.JoinWith(ts, " ")
+	vs = append(vs, c15Variant{"\n\t " + base + " \n", "gap:outer-whitespace", "outer"})
+	vs = append(vs, c15Variant{"-- c\n" + base + " --(c)--", "gap:outer-comments", "outer"})
+	last := ts[len(ts)-1]
+	for _, f := range c15Fillers {
+		if strings.HasPrefix(f.text, "--") && last.Kind == "punct" && strings.HasSuffix(last.Text, "-") {
+			continue
+		}
+		vs = append(vs, c15Variant{base + f.text, "trailing:" + f.name, "after " + tokClass(last)})
+		vs = append(vs, c15Variant{f.text + base, "leading:" + f.name, "before " + tokClass(ts[0])})
+	}
+	return base, vs
 }
